@@ -241,6 +241,9 @@ Graph::NodeId GlobalGraph::createNode()
 
 Graph::NodeId GlobalGraph::createNodeFromNode(Graph::NodeId origin)
 {
+  // origin must be an existing node
+  nodeMustExist_(origin, "origin node");
+
   Graph::NodeId newNode = createNode();
   link(origin, newNode);
   this->topologyHasChanged_();
